@@ -33,15 +33,62 @@ func findHub(p *core.Program, r *core.Report, rule string) *hubAnchors {
 		return nil
 	}
 	seen := map[*ssa.Function]bool{}
+	var raw []*ssa.Function
 	for _, fn := range p.RepoFuncs() {
 		core.EachInstr(fn, func(in ssa.Instruction) {
 			if core.IsStaticCall(in, dialName) && !seen[fn] {
 				seen[fn] = true
-				a.dialFns = append(a.dialFns, fn)
+				raw = append(raw, fn)
 			}
 		})
 	}
+	// the dial function is the one that knows which service it dials (takes the ServiceDetails); a helper that
+	// only wraps the Dial calls (address variants, retries) is lifted to its callers
+	ensureCallSites(p)
+	gDialHelpers = map[*ssa.Function]bool{}
+	hasSvc := func(fn *ssa.Function) bool {
+		for _, pa := range fn.Params {
+			if core.TypeIs(pa.Type(), apiPath, "ServiceDetails") {
+				return true
+			}
+		}
+		return false
+	}
+	eff := map[*ssa.Function]bool{}
+	var lift func(fn *ssa.Function, depth int)
+	lift = func(fn *ssa.Function, depth int) {
+		if hasSvc(fn) || depth == 0 || len(gCallSites[fn]) == 0 {
+			if !eff[fn] {
+				eff[fn] = true
+				a.dialFns = append(a.dialFns, fn)
+			}
+			return
+		}
+		gDialHelpers[fn] = true
+		for _, cs := range gCallSites[fn] {
+			lift(cs.Parent(), depth-1)
+		}
+	}
+	for _, fn := range raw {
+		lift(fn, 2)
+	}
 	return a
+}
+
+// gDialHelpers: functions that wrap websocket.Dialer.Dial on behalf of the dial function.
+var gDialHelpers = map[*ssa.Function]bool{}
+
+// isDialInstr: a Dial call, or a call of a helper that wraps it.
+func isDialInstr(in ssa.Instruction) bool {
+	if core.IsStaticCall(in, dialName) {
+		return true
+	}
+	if c, ok := in.(*ssa.Call); ok {
+		if t := c.Call.StaticCallee(); t != nil && gDialHelpers[t] {
+			return true
+		}
+	}
+	return false
 }
 
 // pairedEdge: edge on which the service was found trusted (paired) - directly or
@@ -283,7 +330,7 @@ func checkC10(p *core.Program, r *core.Report) {
 	sg := a.shutdownGate(r, R4)
 	for _, d := range a.dialFns {
 		core.EachInstr(d, func(in ssa.Instruction) {
-			if !core.IsStaticCall(in, dialName) {
+			if !isDialInstr(in) {
 				return
 			}
 			key := "Dial in " + p.FnName(d)
@@ -295,6 +342,13 @@ func checkC10(p *core.Program, r *core.Report) {
 		})
 	}
 	r.Floor(R4, 1)
+	// R6 / R7: what is dialled is the registered service; trust is written by the user operations only
+	const R6 = "C10.R6 dialled-service-is-the-registered-one"
+	const R7 = "C10.R7 trust-writers"
+	r.Rule(R6, "a connection the hub creates for a registered SKI is with the holder of that SKI's key: SKI of the first presented certificate, bound to its public key, equal to the dialled SKI, checked on every dial attempt (rules shared with C02.R1/R2/R4)")
+	r.Rule(R7, "SetTrusted(true) only within RegisterRemoteSKI or under state == SmeHelloStateOk of the state-update callback; the trust predicates return the stored flags (rule shared with C01.R4): no other handshake state re-trusts a SKI the user cancelled or unregistered")
+	importRules(p, r, "C02", map[string]string{"C02.R1 identity-provenance": R6, "C02.R2 refusal-order": R6, "C02.R4 ski-bound-to-key": R6}, nil)
+	importRules(p, r, "C01", map[string]string{"C01.R4 hub-trust-writers": R7}, nil)
 	// R5
 	n := checkSKINormalised(p, r, R5, map[string]bool{"RegisterRemoteSKI": true, "UnregisterRemoteSKI": true, "DisconnectSKI": true, "CancelPairingWithSKI": true})
 	if n < 4 {
